@@ -157,7 +157,7 @@ func UnmarshalResource(data []byte, schema *Schema) (Resource, error) {
 	res.Set("id", rske.ID)
 
 	for a, v := range rske.Attributes {
-		if attr, ok := typ.Attrs[a]; ok {
+		if attr, ok := typ.Attrs[a]; ok && hasAttr(res, attr.Name) {
 			val, err := attr.UnmarshalToType(v)
 			if err != nil {
 				return nil, err
@@ -170,7 +170,7 @@ func UnmarshalResource(data []byte, schema *Schema) (Resource, error) {
 	}
 
 	for r, v := range rske.Relationships {
-		if rel, ok := typ.Rels[r]; ok {
+		if rel, ok := typ.Rels[r]; ok && hasRel(res, rel.FromName) {
 			if len(v.Data) > 0 {
 				if rel.ToOne {
 					var iden Identifier
@@ -205,6 +205,31 @@ func UnmarshalResource(data []byte, schema *Schema) (Resource, error) {
 	}
 
 	return res, nil
+}
+
+// hasAttr reports whether the resource has an attribute with the given name.
+//
+// A resource made by a type's NewFunc (a wrapped struct) has the fields of its
+// struct, which are not necessarily all those the type got in the schema.
+func hasAttr(res Resource, name string) bool {
+	for _, attr := range res.Attrs() {
+		if attr.Name == name {
+			return true
+		}
+	}
+
+	return false
+}
+
+// hasRel reports whether the resource has a relationship with the given name.
+func hasRel(res Resource, name string) bool {
+	for _, rel := range res.Rels() {
+		if rel.FromName == name {
+			return true
+		}
+	}
+
+	return false
 }
 
 // UnmarshalPartialResource unmarshals the given payload into a *SoftResource.
